@@ -23,6 +23,12 @@ def solve_fixed_grid(
             s_new = solver.step(state=s, dt=dt, damp=damp)
             return s_new, s_new
 
+        if len(np.shape(grid)) != 1:
+            msg = "The grid has an unexpected shape."
+            msg += " Expected: a one-dimensional array of time-points."
+            msg += f" Received: shape={np.shape(grid)}."
+            raise ValueError(msg)
+
         t0 = grid[0]
         state0 = solver.init(t=t0, u=u, damp=damp)
         s_new, result = flow.scan(body_fn, init=state0, xs=np.diff(grid))
